@@ -494,3 +494,42 @@ def quotients(body) -> list:
             d = strip(v.a[2])
             out.append((strip(v.a[1]).a[0], d.a[0] if d.k == "name" else None, st))
     return out
+
+
+def guarded_store_blocks(body, arr):
+    """[(conditions, statement list)] for every statement list that stores into
+    the 2-index array `arr`, with the conjunction of conditions under which it is
+    reached: enclosing `if` tests, negated earlier alternatives, and guard
+    clauses (`if C: continue/break/return` puts the rest of the block under
+    not C)."""
+    out = []
+
+    def go(stmts, conds):
+        conds = list(conds)
+        has_store = any(st.k == "assign" and any(
+            t.k == "index" and t.a[0].k == "name" and t.a[0].a[0] == arr and
+            len(t.a[1]) == 2 for t in st.a[0]) for st in stmts)
+        snapshot = None
+        for st in stmts:
+            if st.k == "if":
+                neg = []
+                for cond, b in st.a[0]:
+                    go(b, conds + neg + _conj(cond))
+                    neg = neg + _neg_conj(cond)
+                go(st.a[1], conds + neg)
+                if not st.a[1] and all(b and b[-1].k in ("continue", "break", "return")
+                                       for _, b in st.a[0]):
+                    for cond, _ in st.a[0]:
+                        conds = conds + _neg_conj(cond)
+            elif st.k == "for":
+                go(st.a[2], conds)
+            elif st.k == "while":
+                go(st.a[1], conds)
+            elif st.k == "assign" and has_store and snapshot is None and any(
+                    t.k == "index" and t.a[0].k == "name" and t.a[0].a[0] == arr
+                    for t in st.a[0]):
+                snapshot = list(conds)
+        if has_store:
+            out.append((snapshot if snapshot is not None else conds, stmts))
+    go(body, [])
+    return out
